@@ -11,13 +11,13 @@ theorem foldl_inv {α β : Type} (P : β → Prop) (f : β → α → β) (l : L
   | nil => exact hb
   | cons a as ih => exact ih _ (hf b a hb)
 
-theorem State.update_get (x : State) (i' s' : Nat) (v : Rat) (i s : Nat) :
+theorem State.update_get_chem (x : State) (i' s' : Nat) (v : Rat) (i s : Nat) :
     (x.update i' s' v).get i s = if i = i' ∧ s = s' then v else x.get i s := rfl
 
 /-- updating an entry whose flag differs from the flag of (i, s) leaves (i, s) alone -/
 theorem State.update_other (chem : Nat → Nat → Bool) (x : State) (i s i' s' : Nat) (v : Rat)
     (h : chem i s = true) (h' : chem i' s' = false) : (x.update i' s' v).get i s = x.get i s := by
-  rw [State.update_get]
+  rw [State.update_get_chem]
   split
   · rename_i hh
     obtain ⟨rfl, rfl⟩ := hh
